@@ -66,6 +66,10 @@ structure GaussLaws (F : Type) [NumC F] where
   np_add : ∀ x y : F, ¬ base.nan x → le x zero = true → ¬ base.nan y → le y zero = true →
       ¬ base.nan (add x y) ∧ le (add x y) zero = true
   np_sub_one : ∀ x : F, ¬ base.nan x → le x zero = true → ¬ base.nan (sub x one) ∧ le (sub x one) zero = true
+  /-- the cut `10000000.0` of `fill_vector`: `−cut ≤ cut`, both comparable with themselves -/
+  cut_range : le (neg (cut : F)) cut = true ∧ le (cut : F) cut = true ∧ le (neg (cut : F)) (neg cut) = true
+  /-- the two comparisons are complementary on non-NaN values -/
+  not_lt_le : ∀ x y : F, ¬ base.nan x → ¬ base.nan y → lt x y = false → le y x = true
 
 namespace Cls
 variable {F : Type} [NumC F] (G : GaussLaws F)
@@ -89,6 +93,26 @@ theorem unit_one : Unit01 G (one : F) := ⟨G.one_sp, G.one_le_one⟩
 theorem sp_not_nan {x : F} (h : G.base.sp x) : ¬ G.base.nan x :=
   (G.base.le_not_nan _ _ (G.base.sp_nn x h)).2
 theorem unit_not_nan {x : F} (h : Unit01 G x) : ¬ G.base.nan x := sp_not_nan G h.1
+
+/-! #### the cut of `fill_vector` -/
+
+/-- whatever the program yields (nothing, ±1e308, …, anything but NaN), the value fed to a class
+    distribution lies in [−1e7, 1e7] -/
+theorem cutVal_bounded (o : Option F) (h : ¬ G.base.nan (valOr0 o)) :
+    le (neg (cut : F)) (cutVal o) = true ∧ le (cutVal o) (cut : F) = true := by
+  unfold cutVal
+  simp only []
+  have hc : ¬ G.base.nan (cut : F) := (G.base.le_not_nan _ _ G.cut_range.2.1).1
+  have hnc : ¬ G.base.nan (neg (cut : F)) := (G.base.le_not_nan _ _ G.cut_range.2.2).1
+  split
+  · exact ⟨G.cut_range.1, G.cut_range.2.1⟩
+  · rename_i h1
+    split
+    · exact ⟨G.cut_range.2.2, G.cut_range.1⟩
+    · rename_i h2
+      have h1' : lt (cut : F) (valOr0 o) = false := by simpa using h1
+      have h2' : lt (valOr0 o) (neg (cut : F)) = false := by simpa using h2
+      exact ⟨G.not_lt_le _ _ h hnc h2', G.not_lt_le _ _ hc h h1'⟩
 
 /-! #### the distributions -/
 
@@ -442,6 +466,14 @@ def ratGaussLaws (ex : Rat → Rat) (dsc : Rat → Nat → Nat) (hex : ∀ x : R
     np_sub_one := by
       intro x _ hx
       simp only [rat_le, rat_sub, rat_one, rat_zero, decide_eq_true_eq] at *
-      exact ⟨id, by grind⟩ }
+      exact ⟨id, by grind⟩
+    cut_range := by
+      have hcut : (cut : Rat) = 10000000 := rfl
+      simp only [rat_le, rat_neg, hcut, decide_eq_true_eq]
+      refine ⟨by grind, by grind, by grind⟩
+    not_lt_le := by
+      intro x y _ _ h
+      simp only [rat_lt, rat_le, decide_eq_false_iff_not, decide_eq_true_eq] at *
+      exact Rat.not_lt.mp h }
 
 end Vita.C05
